@@ -55,6 +55,8 @@ pub struct BodyPlan {
     pub rereads: usize,
     pub read_timeout_ms: u64,
     pub extra_headers: Vec<(String, Vec<u8>)>,
+    /// `via_text_reader` only: read through `text_reader_with(this charset)` instead of `text_reader()`
+    pub text_charset: Option<&'static encoding_rs::Encoding>,
     /// which `std::io::Read` entry point the size schedule goes through: 0 = `read`, 1 = `read_vectored`
     /// (two slices), 2 = `take(n).read_to_end()` (waits for n bytes: not for the "never waits" checks)
     pub read_api: u8,
@@ -253,6 +255,7 @@ pub fn gen_plan(g: &mut G, max_payload: usize) -> BodyPlan {
         rereads: g.below(4) as usize,
         read_timeout_ms: 30_000,
         extra_headers: extra,
+        text_charset: None,
         // derived, not drawn: recorded tapes of earlier findings keep their meaning
         read_api: match (len * 7 + nsegs) % 6 {
             0 => 1,
@@ -302,6 +305,7 @@ pub fn plan_from_payload(g: &mut G, payload: Vec<u8>, mut headers: Vec<(String, 
         rereads: 0,
         read_timeout_ms: 30_000,
         extra_headers: headers,
+        text_charset: None,
         read_api: 0,
         damage: String::new(),
         cut_at: None,
@@ -309,6 +313,25 @@ pub fn plan_from_payload(g: &mut G, payload: Vec<u8>, mut headers: Vec<(String, 
 }
 
 impl BodyPlan {
+    /// Give every payload octet a new value, in the payload and at its place in the wire (the framing
+    /// depends on lengths only).
+    pub fn repaint_payload(&mut self, f: impl Fn(usize, u8) -> u8) {
+        for (i, b) in self.payload.iter_mut().enumerate() {
+            *b = f(i, *b);
+        }
+        let head = self.wire.head_len;
+        if self.framing == Framing::Chunked {
+            let mut p = 0usize;
+            for (_, o_data, _, len) in self.wire.chunk_map.clone() {
+                self.wire.bytes[o_data..o_data + len].copy_from_slice(&self.payload[p..p + len]);
+                p += len;
+            }
+        } else {
+            let n = self.payload.len();
+            self.wire.bytes[head..head + n].copy_from_slice(&self.payload);
+        }
+    }
+
     pub fn shape(&self) -> String {
         let cc = match self.chunk_lens.len() {
             0 => "0",
@@ -477,10 +500,12 @@ impl Body {
             Body::Split(r) => Box::new(r),
         }
     }
-    fn text_reader(self) -> Box<dyn Read> {
-        match self {
-            Body::Whole(r) => Box::new(r.text_reader()),
-            Body::Split(r) => Box::new(r.text_reader()),
+    fn text_reader(self, charset: Option<&'static encoding_rs::Encoding>) -> Box<dyn Read> {
+        match (self, charset) {
+            (Body::Whole(r), None) => Box::new(r.text_reader()),
+            (Body::Split(r), None) => Box::new(r.text_reader()),
+            (Body::Whole(r), Some(c)) => Box::new(r.text_reader_with(c)),
+            (Body::Split(r), Some(c)) => Box::new(r.text_reader_with(c)),
         }
     }
     fn bytes(self) -> attohttpc::Result<Vec<u8>> {
@@ -566,7 +591,7 @@ pub fn caller_with(plan: &BodyPlan, stop_on_block: bool, tweak: impl FnOnce(atto
     let mut resp = if (plan.payload.len() + plan.wire.head_len) % 4 == 1 { Body::Split(resp.split().2) } else { Body::Whole(resp) };
     match &plan.read_mode {
         ReadMode::Sizes(sizes, _) => {
-            let mut resp: Box<dyn Read> = if plan.via_text_reader { resp.text_reader() } else { resp.reader() };
+            let mut resp: Box<dyn Read> = if plan.via_text_reader { resp.text_reader(plan.text_charset) } else { resp.reader() };
             let mut i = 0usize;
             let mut after_end = 0usize;
             let mut ended = false;
